@@ -8,6 +8,7 @@
 #include <csignal>
 #include <cstdio>
 #include <cstdlib>
+#include <functional>
 #include <iostream>
 #include <random>
 #include <sstream>
@@ -264,6 +265,10 @@ namespace {
       int counter = 0;
       bool noisy = false;
       bool edge = false;            // the Lexicon starts right before the end of a string storage block; the noise interns no words
+      // called with the outermost block / try-block when all its statements but the last have been added (the unit is printed
+      // while still under construction; what is printed in the end must not depend on that)
+      std::function<void(const ipr::Stmt&)> pause;
+      int nesting = 0;
       std::mt19937_64 g { 7 };
 
       std::vector<void*> holes;
@@ -380,7 +385,14 @@ namespace {
          if (kind == "return") return *located(lex.make_return(*lex.make_literal(lex.int_type(), u8"0")));
          if (kind == "block" or kind == "try") {
             auto b = located(lex.make_block(region));
-            for (auto& c : *t.at(1).a) b->add_stmt(build(c, b->lexical_region));
+            const bool outermost = nesting == 0;
+            ++nesting;
+            std::size_t left = t.at(1).a->size();
+            for (auto& c : *t.at(1).a) {
+               if (outermost and pause and --left == 0) pause(*b);
+               b->add_stmt(build(c, b->lexical_region));
+            }
+            --nesting;
             if (kind == "try")
                for (auto& hb : *t.at(2).a) {
                   auto h = b->new_handler(name(), lex.int_type());
@@ -552,6 +564,15 @@ namespace {
          text_event(ta, da, digest(a), "lexicon A");
          text_event(tb, db, digest(b), "lexicon B, interleaved with unrelated allocations");
          text_event(ta2, da, digest(a), "lexicon A, fresh printer");
+         // -- C17: the same construction printed once before its last statement was added (with and without locations), then completed
+         if (tree.at(0).as_str() == "block" or tree.at(0).as_str() == "try") {
+            Program c;
+            c.pause = [&c](const ipr::Stmt& sofar) { (void)render(c.lex, sofar, false); (void)render(c.lex, sofar, true); };
+            auto& sc = c.build(tree, *c.unit.global_region());
+            auto dc = digest(c);
+            auto tc = render(c.lex, sc, false);
+            text_event(tc, dc, digest(c), "lexicon C, printed once before its last statement was added");
+         }
          // -- C17: locations on every second statement of the tree (pre-order), with and without a column
          std::vector<std::array<long, 3>> locs;
          for (std::size_t k = 0; k < a.order.size(); ++k) {
